@@ -188,22 +188,19 @@ impl MT104 {
         let mut instructing_party = None;
         let mut creditor = None;
 
-        // Check if field 50 exists and determine its type based on the variant
-        if let Some(variant) = parser.peek_field_variant("50") {
-            match variant.as_str() {
-                "C" | "L" => {
-                    // These variants are for Field50InstructingParty
+        // Sequence A may carry an instructing party (C/L) followed by a creditor (A/K); the
+        // option letter decides which one a field is
+        for _ in 0..2 {
+            match parser.peek_field_variant("50").as_deref() {
+                Some("C") | Some("L") if instructing_party.is_none() && creditor.is_none() => {
                     instructing_party =
                         parser.parse_optional_variant_field::<Field50InstructingParty>("50")?;
                 }
-                "A" | "K" => {
-                    // These variants are for Field50Creditor
+                Some(_) if creditor.is_none() => {
+                    // A/K, or a letter that is not allowed here (reported by the field parser)
                     creditor = parser.parse_optional_variant_field::<Field50Creditor>("50")?;
                 }
-                _ => {
-                    // Any other option letter is not allowed here: report it instead of guessing
-                    creditor = parser.parse_optional_variant_field::<Field50Creditor>("50")?;
-                }
+                _ => break,
             }
         }
 
@@ -229,24 +226,19 @@ impl MT104 {
             let mut instructing_party_tx = None;
             let mut creditor_tx = None;
 
-            // Check if field 50 exists and determine its type based on the variant
-            if let Some(variant) = parser.peek_field_variant("50") {
-                match variant.as_str() {
-                    "C" | "L" => {
-                        // These variants are for Field50InstructingParty
+            for _ in 0..2 {
+                match parser.peek_field_variant("50").as_deref() {
+                    Some("C") | Some("L")
+                        if instructing_party_tx.is_none() && creditor_tx.is_none() =>
+                    {
                         instructing_party_tx =
                             parser.parse_optional_variant_field::<Field50InstructingParty>("50")?;
                     }
-                    "A" | "K" => {
-                        // These variants are for Field50Creditor
+                    Some(_) if creditor_tx.is_none() => {
                         creditor_tx =
                             parser.parse_optional_variant_field::<Field50Creditor>("50")?;
                     }
-                    _ => {
-                        // Any other option letter is not allowed here: report it instead of guessing
-                        creditor_tx =
-                            parser.parse_optional_variant_field::<Field50Creditor>("50")?;
-                    }
+                    _ => break,
                 }
             }
 
